@@ -96,3 +96,19 @@ def replay_dump_get_arg(obl, inputs, job, work):
     bad = (refused == should_accept) or r.returncode not in (0, 1) or (not should_accept and r.returncode == 0)
     return {"reproduced": bad, "cmd": " ".join(cmd), "expected": "no range diagnostic exactly for 0..9; otherwise exit 1 with the diagnostic",
             "observed": {"exit": r.returncode, "stderr": err[:300], "stdout": r.stdout.decode("latin-1")[:120]}}
+
+
+def replay_hfe3_opcodes(obl, inputs, job, work):
+    """C05: HFEv3 opcodes next to a side-block boundary and SKIPBITS in a gap (engine/replay/hfe3_opcodes_demo.sh: the pinned
+    wdfs-dd.hfe relabelled HXCHFEV3 with two bytes of a gap overwritten) must read exactly as the version-1 image.  The
+    verifier's counterexample block is not turned into a whole image; these fixed placements are the ones the failed
+    obligations of copy_hfe / the side-block loop stand for."""
+    build = build_native(work)
+    script = os.path.join(os.path.dirname(os.path.abspath(__file__)), "replay", "hfe3_opcodes_demo.sh")
+    env = dict(os.environ, BEEBTOOLS_REPO=REPO, TMPDIR=work)
+    r = subprocess.run(["bash", script, build], capture_output=True, timeout=600, env=env)
+    out = r.stdout.decode("latin-1")
+    cases = [l for l in out.splitlines() if l.startswith("CASE ")]
+    return {"reproduced": r.returncode == 1, "cmd": "bash %s %s" % (script, build),
+            "expected": "every case NOT REPRODUCED (output identical to the version-1 image), exit 0",
+            "observed": {"exit": r.returncode, "cases": [c[:300] for c in cases]}}
